@@ -310,15 +310,26 @@ def bane_compressed_oracle():
         hdr['BPA'] = 0.0
         fn = os.path.join(d, 'im.fits')
         fits.PrimaryHDU(img, header=hdr).writeto(fn)
-        bane.filter_image(fn, os.path.join(d, 'out'), step_size=(4, 4), box_size=(12, 12), cores=1, nslice=1, compressed=True)
-        for nm in ('bkg', 'rms'):
-            e = ft.expand(os.path.join(d, 'out_%s.fits' % nm))
-            h_ = e[0].header
-            if tuple(e[0].data.shape) != img.shape:
-                return True, 'bane-compressed-shape', 'the compressed %s map expands to shape %s, the image is %s' % (nm, e[0].data.shape, img.shape)
-            for k in ('CRPIX1', 'CRPIX2', 'CDELT1', 'CDELT2'):
-                if abs(h_[k] - hdr[k]) > 1e-9:
-                    return True, 'bane-compressed-wcs', 'the compressed %s map written by BANE expands to %s = %r, the image has %r' % (nm, k, h_[k], hdr[k])
+        # square and rectangular grids (a rectangular one in either orientation, one step a multiple of the other or not)
+        for grid in ((4, 4), (8, 4), (4, 8), (6, 4)):
+            ret = bane.filter_image(fn, os.path.join(d, 'out'), step_size=grid, box_size=(grid[0] * 3, grid[1] * 3), cores=1, nslice=1, compressed=True)
+            for k_, nm in enumerate(('bkg', 'rms')):
+                with fits.open(os.path.join(d, 'out_%s.fits' % nm)) as small:
+                    fac_ = int(small[0].header.get('BN_CFAC', 0))
+                e = ft.expand(os.path.join(d, 'out_%s.fits' % nm))
+                h_ = e[0].header
+                if tuple(e[0].data.shape) != img.shape:
+                    return True, 'bane-compressed-shape', 'grid %s: the compressed %s map expands to shape %s, the image is %s' % (grid, nm, e[0].data.shape, img.shape)
+                for k in ('CRPIX1', 'CRPIX2', 'CDELT1', 'CDELT2'):
+                    if abs(h_[k] - hdr[k]) > 1e-9:
+                        return True, 'bane-compressed-wcs', 'grid %s: the compressed %s map written by BANE expands to %s = %r, the image has %r' % (grid, nm, k, h_[k], hdr[k])
+                # the file holds the map BANE computed (and returns): complete cells of the expanded file agree with it
+                if isinstance(ret, tuple) and len(ret) == 2 and fac_ >= 1:
+                    full = real_np.asarray(ret[k_], dtype=float)
+                    R_, C_ = (img.shape[0] - 1) // fac_ * fac_ + 1, (img.shape[1] - 1) // fac_ * fac_ + 1
+                    dev = float(real_np.nanmax(real_np.abs(real_np.asarray(e[0].data, dtype=float)[:R_, :C_] - full[:R_, :C_])))
+                    if not dev <= 2e-3:
+                        return True, 'bane-compressed-values', 'grid %s: the compressed %s map, expanded, differs from the map the same call computed by up to %.3g on complete cells (file decimated by %d)' % (grid, nm, dev, fac_)
         return False, None, None
     except Exception as e:
         return True, 'raises-%s' % type(e).__name__, repr(e)[:300]
